@@ -249,6 +249,9 @@ func validIdentOrKeyword(s string) bool {
 	return true
 }
 
+// illFormed: the AST violates the Cedar schema grammar in a way both parsers check (see notASchema in checkC17)
+func (f schemaFeatures) illFormed() bool { return f.emptyEnum || f.badIdent || f.reservedCommon }
+
 func (f schemaFeatures) primitiveShadowed() bool {
 	for n := range f.printedPrims {
 		if f.declared[n] {
@@ -324,6 +327,22 @@ func checkC17(c *vh.Ctx, tag string, s0 *sast.Schema, feat schemaFeatures) {
 	}
 	var t1, j1 []byte
 	var sT, sJ *sast.Schema
+	// The generators build ASTs directly, so an AST may be one that NEITHER format can express, i.e. no schema at all: an enum
+	// without values (the grammar requires one; both parsers reject it since the repair of `empty-enum-becomes-entity`), a
+	// name that is not an identifier / path, a common type with a reserved name (the JSON parser checks names as the text
+	// parser does since the repair of `unvalidated-identifier-renders-unparseable` / `reserved-common-type-name-…`).
+	// For such an AST a rendering that does not parse is the consistent outcome. The excuse needs BOTH the harness's own
+	// predicate on the AST (featuresOf) AND the JSON parser rejecting the AST's JSON rendering: if UnmarshalJSON accepts
+	// such a schema again, sJ is set and every leg reports exactly as before.
+	notASchema := false
+	if feat.illFormed() {
+		vh.Protect(func() {
+			if j, err := schema.NewSchemaFromAST(s0).MarshalJSON(); err == nil {
+				var sc schema.Schema
+				notASchema = sc.UnmarshalJSON(j) != nil
+			}
+		})
+	}
 	// ---- text -> AST -> text
 	if p := vh.Protect(func() { t1, _ = schema.NewSchemaFromAST(s0).MarshalCedar() }); p != nil {
 		report("text", "panic", fmt.Sprint("MarshalCedar: ", p), nil, nil)
@@ -335,7 +354,9 @@ func checkC17(c *vh.Ctx, tag string, s0 *sast.Schema, feat schemaFeatures) {
 		} else if err != nil {
 			// (parse (print s)).bind resolve = resolve s: a rejected rendering of a schema that does not resolve either is consistent
 			oracle()
-			if r0.ok {
+			if notASchema {
+				c.Dist("text:unparseable-and-not-a-schema")
+			} else if r0.ok {
 				report("text", "unparseable", "rendered Cedar text of a resolvable schema does not parse: "+err.Error(), r0.String(), string(t1))
 			} else {
 				c.Dist("text:unparseable-and-unresolvable")
@@ -364,7 +385,11 @@ func checkC17(c *vh.Ctx, tag string, s0 *sast.Schema, feat schemaFeatures) {
 			report("json", "panic", fmt.Sprint("UnmarshalJSON: ", p), nil, string(j1))
 		} else if err != nil {
 			oracle()
-			report("json", "unparseable", "rendered JSON does not parse: "+err.Error(), "parses", string(j1))
+			if notASchema {
+				c.Dist("json:unparseable-and-not-a-schema")
+			} else {
+				report("json", "unparseable", "rendered JSON does not parse: "+err.Error(), "parses", string(j1))
+			}
 		} else {
 			sJ = sc.AST()
 			j2, _ := schema.NewSchemaFromAST(sJ).MarshalJSON()
@@ -450,6 +475,7 @@ var c17Texts = []string{
 	"entity __cedar_like; entity type, entity2; type action = Long; action namespace, entity appliesTo { principal: type, resource: entity2 };",
 	"namespace X { entity Long; entity Y { a: Long, b: __cedar::Long, c: X::Long }; }",
 	"entity E { __cedar: Long, \"in\": String }; action __cedar;",
+	"entity Set; namespace Set { entity T; type U = Set<Set>; } entity X in Set { a: Set, b: Set<Set>, c: Set::T, d: Set <Set::U> } tags Set;",
 }
 
 // texts the parser must reject (or accept with a specific AST): lexical and grammatical edge cases
@@ -468,7 +494,7 @@ var c17BadTexts = []string{
 }
 
 func runC17(c *vh.Ctx) {
-	c.Res.Rule = "schema ASTs: ALL entity/common-type/action graphs on <=3 names in the primary reference style (the namespaced / qualified styles: all graphs on <=2 names and every 4th on 3 in the quick tier, all in thorough), hand-written specials (undefined refs, RFC-70 shadowing, resolution order, names like primitives, __cedar:: prefixes), random schemas in three profiles (JSON-shaped nodes, text-shaped nodes, hostile names); each through text->AST->text, JSON->AST->JSON, text->JSON->text, JSON->text->JSON with second-rendering byte identity and equality of the canonical dump of Resolve(); plus model/Go correspondence of Resolve (accept/reject + dump), the JSON encoder tree and the Cedar text printer. distinct = distinct schema encodings; non-trivial = schema with at least one declaration"
+	c.Res.Rule = "schema ASTs: ALL entity/common-type/action graphs on <=3 names in the primary reference style (the namespaced / qualified styles: all graphs on <=2 names and every 4th on 3 in the quick tier, all in thorough), hand-written specials (undefined refs, RFC-70 shadowing, resolution order, names like primitives, __cedar:: prefixes), random schemas in four profiles (JSON-shaped nodes, text-shaped nodes, hostile names, hostile but grammatical names); each through text->AST->text, JSON->AST->JSON, text->JSON->text, JSON->text->JSON with second-rendering byte identity and equality of the canonical dump of Resolve(); plus model/Go correspondence of Resolve (accept/reject + dump), the JSON encoder tree and the Cedar text printer. distinct = distinct schema encodings; non-trivial = schema with at least one declaration"
 	var cases []vh.SchemaCase
 	for _, sc := range vh.SpecialSchemas() {
 		if sc.Tag == "special-colon-name-cycle" {
@@ -498,12 +524,13 @@ func runC17(c *vh.Ctx) {
 		cases = append(cases, sampled(vh.ActionGraphSchemas(3, st), st == 0)...)
 	}
 	profiles := []struct {
-		name              string
-		fromText, hostile bool
-		n                 int
-	}{{"rand-json", false, false, c.N(1200, 30000)}, {"rand-text", true, false, c.N(800, 15000)}, {"rand-hostile", false, true, c.N(800, 15000)}}
+		name                  string
+		fromText, hostile, wf bool
+		n                     int
+	}{{"rand-json", false, false, false, c.N(1200, 30000)}, {"rand-text", true, false, false, c.N(800, 15000)}, {"rand-hostile", false, true, false, c.N(800, 15000)},
+		{"rand-hostilewf", false, true, true, c.N(600, 12000)}}
 	for _, p := range profiles {
-		g := &vh.SchemaGen{R: c.Rng, FromText: p.fromText, Hostile: p.hostile}
+		g := &vh.SchemaGen{R: c.Rng, FromText: p.fromText, Hostile: p.hostile, WellFormed: p.wf}
 		for i := 0; i < p.n; i++ {
 			cases = append(cases, vh.SchemaCase{Tag: fmt.Sprintf("%s-%d", p.name, i), S: g.Schema()})
 		}
